@@ -162,6 +162,28 @@ def run_mapping(case):
             out.append(viol("%s:set-differs:%s%s" % (where, "missing" if missing else "", "+extra" if extra else ""),
                             "%s != greedy-stable assignments: missing=%s extra=%s (stems %s)" % (where, missing[:3], extra[:3], stems), sorted(got)[:20], sorted(want)[:20]))
 
+    def judge_flat(where, structs):
+        """A list of notations of the whole BPSEQ (no strand headers)."""
+        if structs is None:
+            return
+        if len(set(structs)) != len(structs):
+            out.append(viol(where + ":repeated-member", where + " repeats a notation", structs[:10], None))
+        got = set()
+        for st in structs:
+            dec, probs = ref2d.decode(st)
+            if probs or len(st) != len(seq) or sorted(map(tuple, dec)) != sorted(map(tuple, case["pairs"])):
+                out.append(viol(where + ":decoded-pairs-differ", "%s: member does not decode to the input pairs %s" % (where, case["pairs"]), st, None))
+                return
+            lev = ref2d.stem_levels(stems, dec)
+            if None in lev:
+                out.append(viol(where + ":stem-split-across-levels", "a stem is written on several levels", st, stems))
+                return
+            got.add(tuple(lev))
+        if got != want:
+            missing, extra = sorted(want - got), sorted(got - want)
+            out.append(viol("%s:set-differs:%s%s" % (where, "missing" if missing else "", "+extra" if extra else ""),
+                            "%s != greedy-stable assignments: missing=%s extra=%s (stems %s)" % (where, missing[:3], extra[:3], stems), sorted(got)[:20], sorted(want)[:20]))
+
     m = call("Mapping2D3D", lambda: Mapping2D3D(s3, bps, [], False), out)
     al = call("Mapping2D3D.all_dot_brackets", lambda: list(m.all_dot_brackets), out) if m is not None else None
     if al is not None:
@@ -169,6 +191,18 @@ def run_mapping(case):
         db = call("Mapping2D3D.dot_bracket", lambda: m.dot_bracket, out)
         if db is not None and db not in al:
             out.append(viol("mapping:optimal-not-member", "Mapping2D3D.dot_bracket is not a member of Mapping2D3D.all_dot_brackets", al[:10], db))
+        # the other observation points of the same object, asked afterwards: the list of the BPSEQ the mapping holds, and the mapping's list once more
+        judge_flat("mapping.bpseq-after-mapping", call("Mapping2D3D.bpseq.all_dot_brackets", lambda: [x.structure for x in m.bpseq.all_dot_brackets], out))
+        al2 = call("Mapping2D3D.all_dot_brackets (second call)", lambda: list(m.all_dot_brackets), out)
+        if al2 is not None and al2 != al:
+            out.append(viol("mapping:second-call-differs", "Mapping2D3D.all_dot_brackets answers differently when asked again", al2[:10], al[:10]))
+        # and in the other order on a second object: the BPSEQ's list first, then the mapping's
+        m2 = call("Mapping2D3D", lambda: Mapping2D3D(s3, bps, [], False), out)
+        if m2 is not None:
+            judge_flat("mapping.bpseq-before-mapping", call("Mapping2D3D.bpseq.all_dot_brackets", lambda: [x.structure for x in m2.bpseq.all_dot_brackets], out))
+            al3 = call("Mapping2D3D.all_dot_brackets (after bpseq)", lambda: list(m2.all_dot_brackets), out)
+            if al3 is not None:
+                judge("mapping-after-bpseq", al3)
     ext = call("adapter.extract", lambda: extract_secondary_structure_from_external(s3, BaseInteractions(bps, [], [], [], []), None, False, True), out)
     if ext is not None:
         judge("adapter", list(ext[1]))
